@@ -252,11 +252,13 @@ class _MessageDB(_Entity):
                 entities.extend(msg.src.tcs.zones)
 
         # remove the msg from all the state DBs
+        # NB: compare by identity: a newer msg can be equal (by value) to the one being deleted
         for obj in entities:
-            if msg in obj._msgs_.values():
+            if obj._msgs_.get(msg.code) is msg:
                 del obj._msgs_[msg.code]
             with contextlib.suppress(KeyError):
-                del obj._msgz_[msg.code][msg.verb][msg._pkt._ctx]
+                if obj._msgz_[msg.code][msg.verb][msg._pkt._ctx] is msg:
+                    del obj._msgz_[msg.code][msg.verb][msg._pkt._ctx]
 
     def _get_msg_by_hdr(self, hdr: HeaderT) -> Message | None:
         """Return a msg, if any, that matches a header."""
